@@ -171,6 +171,15 @@ func firstSort(s string) string {
 
 func (x *Exec) setHeap(st *State, key string, ci compInfo, term string) {
 	x.keyInfo[key] = ci
+	// fail-safe: a write inside a loop body must be covered by the loop's static write set
+	// (otherwise the loop head did not forget the component and the encoding would be unsound)
+	if x.spec == 0 && x.curBlock != nil {
+		for li, keys := range x.loopStatic {
+			if li.body[x.curBlock] && !keys[key] && !strings.HasPrefix(key, "R|") {
+				panic(unsupported("internal: write to %s inside loop %d is not in the loop's static write set", key, li.ord))
+			}
+		}
+	}
 	n := x.sc.fresh(key)
 	x.sc.emit("(define-fun %s () %s %s)", n, ci.sort, term)
 	st.heap[key] = &HeapSym{name: n, sort: ci.sort, declared: true, ref: ci.ref, dim: ci.dim}
